@@ -5,6 +5,7 @@ import (
 	"encoding/json"
 	"flag"
 	"fmt"
+	"math"
 	"regexp"
 	"strconv"
 	"sync"
@@ -49,6 +50,8 @@ type rsBehaviour struct {
 	TimeoutUs int      `json:"timeout_us"`
 	Base      U32      `json:"base"`
 	TickUs    int      `json:"tick_us,omitempty"`
+	Scale     int      `json:"scale,omitempty"`    // real offset = off * scale (0 = 1)
+	InfKind   int      `json:"inf_kind,omitempty"` // which "effectively infinite" duration stands for tinf
 	Ops       []rsOp   `json:"ops"`
 	Pred      []rsCall `json:"pred,omitempty"` // the model's prediction (replay mode)
 	Timed     bool     `json:"timed,omitempty"`
@@ -62,6 +65,16 @@ type rsReset struct {
 	Tinf    bool   `json:"tinf"`
 	Timeout int    `json:"timeout"`
 	Base    U32    `json:"base"`
+}
+
+// durations that all mean "the timeout never fires" (C10's exact causes, C19's
+// "effectively infinite" configuration)
+var infDurations = []time.Duration{
+	10000 * time.Hour,
+	time.Duration(math.MaxInt64),
+	time.Duration(math.MaxInt64 - 1),
+	time.Duration(math.MaxInt64 / 2),
+	100 * 365 * 24 * time.Hour,
 }
 
 // ---- the observing Stream ----------------------------------------------------
@@ -125,7 +138,11 @@ func runBehaviourF(b *rsBehaviour) (rsReset, []rsCall, rsFeat) {
 	highDelivered, highPushed, slept, closedSeen := -1, -1, false, false
 	timeout := time.Duration(b.TimeoutUs) * time.Microsecond
 	if b.Tinf {
-		timeout = 10000 * time.Hour
+		timeout = infDurations[b.InfKind%len(infDurations)]
+	}
+	scale := b.Scale
+	if scale <= 0 {
+		scale = 1
 	}
 	reset := rsReset{K: "reset", Trace: b.Trace, Max: b.Max, Tinf: b.Tinf, Timeout: b.TimeoutUs, Base: b.Base}
 	st := &rsStream{ids: map[*auparse.AuditMessage]int{}}
@@ -171,9 +188,9 @@ func runBehaviourF(b *rsBehaviour) (rsReset, []rsCall, rsFeat) {
 		if op.Op == "close" {
 			closedSeen = true
 		}
-		c := rsCall{K: "call", Op: op.Op, ID: id, Off: op.Off, Type: op.Type, Cbs: []rsCb{}, Ret: "ok"}
+		c := rsCall{K: "call", Op: op.Op, ID: id, Off: op.Off * scale, Type: op.Type, Cbs: []rsCb{}, Ret: "ok"}
 		st.cur = &c.Cbs
-		seq := base + uint32(op.Off)
+		seq := base + uint32(op.Off*scale)
 		c.T0 = int(time.Since(start) / time.Microsecond)
 		func() {
 			defer func() {
@@ -246,7 +263,20 @@ func runBehaviourF(b *rsBehaviour) (rsReset, []rsCall, rsFeat) {
 	return reset, calls, feat
 }
 
-func sameCalls(pred, real []rsCall) bool {
+func dropLost(cbs []rsCb) []rsCb {
+	var out []rsCb
+	for _, c := range cbs {
+		if c.K != "lost" {
+			out = append(out, c)
+		}
+	}
+	return out
+}
+
+// sameCalls compares the model's prediction with the real records. With
+// scaled offsets the reported loss counts legitimately differ from the
+// (unscaled) prediction, so EventsLost callbacks are left to TLC's judgement.
+func sameCalls(pred, real []rsCall, scaled bool) bool {
 	// pred contains "tick" records, real does not.
 	j := 0
 	for _, p := range pred {
@@ -262,11 +292,15 @@ func sameCalls(pred, real []rsCall) bool {
 		if qop == "pushraw" {
 			qop = "push"
 		}
-		if p.Op != qop || p.ID != q.ID || p.Ret != q.Ret || len(p.Cbs) != len(q.Cbs) {
+		pc, qc := p.Cbs, q.Cbs
+		if scaled {
+			pc, qc = dropLost(pc), dropLost(qc)
+		}
+		if p.Op != qop || p.ID != q.ID || p.Ret != q.Ret || len(pc) != len(qc) {
 			return false
 		}
-		for k := range p.Cbs {
-			a, b := p.Cbs[k], q.Cbs[k]
+		for k := range pc {
+			a, b := pc[k], qc[k]
 			if a.K != b.K || !sameInts(a.IDs, b.IDs) || !sameInts(a.N, b.N) {
 				return false
 			}
@@ -346,7 +380,7 @@ func rsRun(args []string) int {
 		}
 	}
 	for i, b := range behs {
-		key, _ := json.Marshal([]interface{}{b.Max, b.Tinf, b.TimeoutUs, b.Base, b.Ops})
+		key, _ := json.Marshal([]interface{}{b.Max, b.Tinf, b.TimeoutUs, b.Base, b.Scale, b.InfKind, b.Ops})
 		h := sha1.Sum(key)
 		f := results[i].feat
 		mark("any", true, h)
@@ -370,12 +404,12 @@ func rsRun(args []string) int {
 	stats := map[string]int{"behaviours": len(behs)}
 	var mismatches []int
 	for i, b := range behs {
-		judge := *all || b.Timed || b.Pred == nil
+		judge := *all || b.Timed || b.Pred == nil || b.Scale > 1
 		if b.Pred != nil {
 			stats["with_prediction"]++
-			if sameCalls(b.Pred, results[i].calls) {
+			if sameCalls(b.Pred, results[i].calls, b.Scale > 1) {
 				stats["equal_to_prediction"]++
-				if !b.Timed {
+				if !b.Timed && b.Scale <= 1 {
 					stats["inherited"]++
 				}
 				if *sample > 0 && i%*sample == 0 {
